@@ -18,6 +18,7 @@ Definition main_upd (c : cfg) (s s' : state) (n : nat) (d : list nat) : Prop :=
   seen r' = seen r ++ d /\ rcanc r' = rcanc r /\
   ((exists w, (ph r' = PTidy w \/ ph r' = PShut w) /\ pend r' = diff (pend r) d /\
       (ph r' = PShut w -> diff (pend r) d = []) /\
+      (forall y, In y (pend r') -> Jb s' y = cancel_j (Jb s y)) /\
       match w with
       | WTimeout => d = [] /\ ndone r' = ndone r
       | WCritical => d <> [] /\ existsb (crit_exc c s) d = true /\ ndone r' = ndone r
@@ -38,15 +39,19 @@ Definition kept (s s' : state) (m : nat) : Prop :=
   (forall w, ph (Rn s m) = PTidy w -> ph (Rn s' m) = PTidy w \/ ph (Rn s' m) = PShut w \/ ph (Rn s' m) = POver) /\
   (ph (Rn s m) = PMain -> ph (Rn s' m) = PCTidy \/ ph (Rn s' m) = POver) /\
   (ph (Rn s m) = PCTidy -> ph (Rn s' m) = PCTidy \/ ph (Rn s' m) = POver) /\
-  ph (Rn s m) <> POver.
+  ph (Rn s m) <> POver /\
+  (rcanc (Rn s m) = true -> rcanc (Rn s' m) = true) /\
+  (ph (Rn s m) = PMain -> ph (Rn s' m) <> POver -> forall y, In y (pend (Rn s' m)) ->
+     finished (st (Jb s y)) = false /\ Jb s' y = cancel_j (Jb s y)).
 
 Lemma filter_true_id (l : list nat) : l = filter (fun _ => true) l.
 Proof. induction l as [|a l IH]; simpl; congruence. Qed.
 
 Lemma kept_over s s' m : ph (Rn s' m) = POver -> seen (Rn s' m) = seen (Rn s m) ->
-  ndone (Rn s' m) = ndone (Rn s m) -> pend (Rn s' m) = pend (Rn s m) -> ph (Rn s m) <> POver -> kept s s' m.
+  ndone (Rn s' m) = ndone (Rn s m) -> pend (Rn s' m) = pend (Rn s m) -> ph (Rn s m) <> POver ->
+  rcanc (Rn s' m) = rcanc (Rn s m) -> kept s s' m.
 Proof.
-  intros H1 H2 H3 H4 H5. unfold kept. rewrite H1. repeat split; auto.
+  intros H1 H2 H3 H4 H5 H6. unfold kept. rewrite H1, H6. repeat split; auto; try (intros; contradiction).
   exists (fun _ => true). rewrite H4. apply filter_true_id.
 Qed.
 
@@ -77,6 +82,7 @@ Inductive reff (c : cfg) (s s' : state) (m : nat) (act : Prop) : Prop :=
     seen (Rn s' m) = [] -> ndone (Rn s' m) = 0 -> qsz (Rn s' m) = 0 ->
     fto (Rn s' m) = false -> fcr (Rn s' m) = false -> rcanc (Rn s' m) = false ->
     (ph (Rn s' m) = PMain -> forall y, In y (members c m) -> reqs c y = [] -> In y (pend (Rn s' m))) ->
+    (ph (Rn s' m) = POver -> pend (Rn s' m) = []) ->
     reff c s s' m act
 | RE_actor :
     act ->
@@ -148,28 +154,29 @@ Proof.
   assert (Hex : forall w v, pend v = pend' -> seen v = seen r ++ d ->
      let r' := Rn (fst (exit_main c n w pend' (setR s n v))) n in
      seen r' = seen r ++ d /\ (ph r' = PTidy w \/ ph r' = PShut w) /\ pend r' = pend' /\
-     (ph r' = PShut w -> pend' = []) /\ ndone r' = ndone v /\ rcanc r' = rcanc v).
+     (ph r' = PShut w -> pend' = []) /\ ndone r' = ndone v /\ rcanc r' = rcanc v /\
+     (forall y, In y (pend r') -> Jb (fst (exit_main c n w pend' (setR s n v))) y = cancel_j (Jb s y))).
   { intros w v Hv Hs. cbn zeta. rewrite Rn_exit_main_n. cbn [seen ph pend ndone rcanc].
-    repeat split; auto.
-    - destruct pend'; auto.
-    - destruct pend'; [reflexivity|discriminate]. }
+    split; [exact Hs|]. split; [destruct pend'; auto|]. split; [exact Hv|].
+    split; [destruct pend'; [reflexivity|discriminate]|]. split; [reflexivity|]. split; [reflexivity|].
+    intros y Hy. rewrite Jb_exit_main, Jb_setR. rewrite Hv in Hy. apply memb_In in Hy. rewrite Hy. reflexivity. }
   destruct d as [|d0 d'] eqn:Ed.
   - match goal with |- context [exit_main c n WTimeout pend' (setR s n ?v)] =>
-      destruct (Hex WTimeout v eq_refl eq_refl) as (A & B & C & D & E & F) end.
+      destruct (Hex WTimeout v eq_refl eq_refl) as (A & B & C & D & E & F & G) end.
     split; [exact A|]. split; [exact F|]. left. exists WTimeout. repeat split; auto.
   - rewrite <- Ed in *. assert (Hne : d <> []) by (rewrite Ed; discriminate). clear Ed.
     fold (crit_exc c s).
     change (fun j : nat => j_crit (jc c j) && is_exc (st (Jb s j))) with (crit_exc c s).
     destruct (existsb (crit_exc c s) d) eqn:Ecrit.
     + match goal with |- context [exit_main c n WCritical pend' (setR s n ?v)] =>
-        destruct (Hex WCritical v eq_refl eq_refl) as (A & B & C & D & E & F) end.
+        destruct (Hex WCritical v eq_refl eq_refl) as (A & B & C & D & E & F & G) end.
       split; [exact A|]. split; [exact F|]. left. exists WCritical. repeat split; auto.
     + fold (nonforever c d). fold (nfinite c n).
       change (length (filter (fun j : nat => negb (j_forever (jc c j))) d)) with (nonforever c d).
       change (length (filter (fun j : nat => negb (j_forever (jc c j))) (members c n))) with (nfinite c n).
       destruct (Nat.eqb_spec (ndone r + nonforever c d) (nfinite c n)) as [Ecnt|Ecnt].
       * match goal with |- context [exit_main c n WSuccess pend' (setR s n ?v)] =>
-          destruct (Hex WSuccess v eq_refl eq_refl) as (A & B & C & D & E & F) end.
+          destruct (Hex WSuccess v eq_refl eq_refl) as (A & B & C & D & E & F & G) end.
         split; [exact A|]. split; [exact F|]. left. exists WSuccess. repeat split; auto.
         rewrite E. cbn [ndone]. exact Ecnt.
       * cbn [fst]. rewrite Rn_setR_same. cbn [seen ph pend ndone rcanc].
@@ -245,6 +252,7 @@ Proof.
         apply NoDup_filter. apply NoDup_seqn.
       * intros _ y Hy Hq. rewrite Rn_setR_same. cbn [pend]. unfold entry. apply filter_In.
         split; [exact Hy|]. rewrite Hq. reflexivity.
+      * rewrite Rn_setR_same. discriminate.
     + apply RE_q; [|apply neq_vac; exact Hmn]. rewrite Rn_setR_other by exact Hmn. rewrite Rn_mapJ. apply Hq0.
 Qed.
 
@@ -321,7 +329,7 @@ Proof.
                  (ph (Rn s n) = PCTidy \/ rcanc (Rn s n) = true) \/ cp (Jb s n) = true)
       by (apply cmode_same; [rewrite H1; discriminate|rewrite rcanc_end_cancelled, E; reflexivity]).
     assert (P7 : kept s (fst (end_cancelled c n s0)) n).
-    { destruct (seen_end_cancelled c n s0) as [S1 S2]. apply kept_over; [exact H1|rewrite S1, E; reflexivity|rewrite S2, E; reflexivity|rewrite H2, E; reflexivity|exact Hpo]. }
+    { destruct (seen_end_cancelled c n s0) as [S1 S2]. apply kept_over; [exact H1|rewrite S1, E; reflexivity|rewrite S2, E; reflexivity|rewrite H2, E; reflexivity|exact Hpo|rewrite rcanc_end_cancelled, E; reflexivity]. }
     apply RE_actor; auto.
     + rewrite H1. discriminate.
     + intros Hn0. right. rewrite Jb_end_cancelled. apply Nat.eqb_neq in Hn0.
@@ -342,7 +350,7 @@ Proof.
                  (ph (Rn s n) = PCTidy \/ rcanc (Rn s n) = true) \/ cp (Jb s n) = true)
       by (apply cmode_same; [rewrite H1; discriminate|rewrite rcanc_finish_run, E; reflexivity]).
     assert (P7 : kept s (fst (finish_run c n w r cu s0)) n).
-    { destruct (seen_finish_run c n w r cu s0) as [S1 S2]. apply kept_over; [exact H1|rewrite S1, E; reflexivity|rewrite S2, E; reflexivity|rewrite H2, E; reflexivity|exact Hpo]. }
+    { destruct (seen_finish_run c n w r cu s0) as [S1 S2]. apply kept_over; [exact H1|rewrite S1, E; reflexivity|rewrite S2, E; reflexivity|rewrite H2, E; reflexivity|exact Hpo|rewrite rcanc_finish_run, E; reflexivity]. }
     apply RE_actor; auto.
     + rewrite H1. discriminate.
     + intros Hn0. right. rewrite Jb_finish_run. apply Nat.eqb_neq in Hn0.
@@ -411,12 +419,14 @@ Proof.
   2:{ apply RE_q; cbn [fst]; [rewrite E1; apply same_but_q_refl|]. intros _. rewrite EJ. auto. }
   destruct (sd_inline s n) eqn:Ein.
   - destruct (run_alive_false _ _ _ (Hi eq_refl)) as (Hs & Hn & Hr).
-    pose proof (reff_finish_run c s s1 n (why_of s n) r cu m E1) as HF.
-    destruct (finish_run c n (why_of s n) r cu s1) as [s2 mo2]. cbn [fst] in *.
-    apply HF.
-    + intros Hn0. apply Hr. exact Hn0.
-    + apply sd_inline_ph. exact Ein.
-    + apply sd_inline_ph2. exact Ein.
+    assert (Hr' : n <> 0 -> st (Jb s n) = Running) by (intros Hn0; apply Hr; exact Hn0).
+    pose proof (sd_inline_ph _ _ Ein) as Hph. pose proof (sd_inline_ph2 _ _ Ein) as Hpo.
+    destruct (rcanc (Rn s n)).
+    + assert (Hcan : reff c s (fst (end_cancelled c n s1)) m (m = n))
+        by (apply reff_end_cancelled; auto).
+      destruct (end_cancelled c n s1) as [s2 mo2]. exact Hcan.
+    + pose proof (reff_finish_run c s s1 n (why_of s n) r cu m E1 Hr' Hph Hpo) as HF.
+      destruct (finish_run c n (why_of s n) r cu s1) as [s2 mo2]. exact HF.
   - apply RE_q; cbn [fst]; [rewrite Rn_hdone, E1; apply same_but_q_refl|].
     intros _. rewrite Jb_hdone, EJ. auto.
 Qed.
@@ -452,10 +462,10 @@ Qed.
 Lemma st_clear_cp s n : st (Jb (clear_cp s n) n) = st (Jb s n) /\ ran (Jb (clear_cp s n) n) = ran (Jb s n).
 Proof. rewrite Jb_clear_cp. destruct (rootb n); [auto|]. rewrite Nat.eqb_refl. auto. Qed.
 
-Lemma reff_cancel_main c s n m : run_alive c s n true = true ->
+Lemma reff_cancel_main c s n m : wf c = true -> pend_ok c s -> run_alive c s n true = true ->
   ph (Rn s n) = PMain -> reff c s (fst (react_cancel_main c n s)) m (m = n).
 Proof.
-  intros Ha Hph. destruct (run_alive_true _ _ _ Ha) as (Hs & Hn & Hn0 & Hst & Hcp).
+  intros W Hpok Ha Hph. destruct (run_alive_true _ _ _ Ha) as (Hs & Hn & Hn0 & Hst & Hcp).
   unfold react_cancel_main.
   set (u := filter _ (pend (Rn s n))).
   assert (Eu0 : u = filter (fun j => negb (jfin s j)) (pend (Rn s n))) by reflexivity.
@@ -476,9 +486,19 @@ Proof.
           by (intros _; right; exact Hcp);
         assert (P7 : kept s S' n)
       end.
-      { unfold kept. rewrite Rn_setR_same. cbn [seen ndone ph pend]. rewrite Rn_clear_cp, Hph.
-        repeat split; auto; try (intros; discriminate).
-        exists (fun j => negb (jfin s j)). exact Eu0. }
+      { unfold kept. rewrite Rn_setR_same. cbn [seen ndone ph pend rcanc]. rewrite Rn_clear_cp, Hph.
+        split; [reflexivity|]. split; [reflexivity|].
+        split; [exists (fun j => negb (jfin s j)); exact Eu0|].
+        split; [intros; discriminate|]. split; [intros; discriminate|].
+        split; [intros _; left; reflexivity|]. split; [intros; discriminate|].
+        split; [discriminate|]. split; [auto|].
+        intros _ _ y Hy. split.
+        - rewrite Eu0 in Hy. apply filter_In in Hy. destruct Hy as [_ Hy].
+          apply negb_true_iff in Hy. exact Hy.
+        - cbn [Jb setR]. rewrite Jb_mapJ. pose proof Hy as Hm. apply memb_In in Hm. rewrite Hm.
+          f_equal. rewrite Jb_clear_cp. apply rootb_false in Hn0. rewrite Hn0.
+          assert (Hyn : y <> n) by (apply (member_neq c n y W); apply Hpok; apply Hu; exact Hy).
+          apply Nat.eqb_neq in Hyn. rewrite Hyn. reflexivity. }
       apply RE_actor; auto.
       * rewrite Hph. discriminate.
       * rewrite Rn_setR_same. discriminate.
@@ -554,9 +574,9 @@ Proof.
 Qed.
 
 Theorem R_effect lvl c s e s' :
-  wf c = true -> step lvl c s e = Some s' -> forall m, reff c s s' m (actor e m).
+  wf c = true -> pend_ok c s -> step lvl c s e = Some s' -> forall m, reff c s s' m (actor e m).
 Proof.
-  intros W Hstep m. apply step_inv in Hstep. destruct Hstep as [-> Hg].
+  intros W Hpok Hstep m. apply step_inv in Hstep. destruct Hstep as [-> Hg].
   destruct e as [n o|n k d o|n k o|n o|j|j oc|j|j|j|j|j|j|j|j|t|t|jv sv]; cbn [reaction actor].
   - split_guards Hg. apply reff_begin; assumption.
   - destruct k; cbn [reaction].
@@ -574,7 +594,7 @@ Proof.
     + cbn [forallb guards app outs_guards] in Hg. apply andb_true_iff in Hg. destruct Hg as [G1 _].
       apply reff_shtidy. eapply sd_thread_inline; eauto.
   - destruct k; cbn [reaction].
-    + split_guards Hg. apply reff_cancel_main; [assumption|].
+    + split_guards Hg. apply reff_cancel_main; [assumption|assumption|assumption|].
       destruct (ph (Rn s n)); try discriminate. reflexivity.
     + split_guards Hg. apply reff_cancel_tidy; [assumption|].
       destruct (ph (Rn s n)) as [| |w| | |]; try discriminate. exists w. reflexivity.
